@@ -348,7 +348,7 @@ Qed.
 
 (** ** What PUBLISH delivers depends only on the holdings *)
 Theorem publish_depends_on_holdings : forall cfg lookup now now' b1 b2 pg pub req opts topic args kw b1' pg1 o1 b2' pg2 o2 (P : N -> Prop),
-    broker_wf b1 -> broker_wf b2 -> lookup_ok lookup -> pub_accepted cfg opts topic ->
+    broker_wf b1 -> broker_wf b2 -> lookup_ok lookup -> pub_accepted cfg pub opts topic ->
     (forall r, P r -> forall id t k, holds_sig b1 r id t k <-> holds_sig b2 r id t k) ->
     publish cfg lookup now b1 pg pub req opts topic args kw = (b1', pg1, o1) ->
     publish cfg lookup now' b2 pg pub req opts topic args kw = (b2', pg2, o2) ->
